@@ -37,7 +37,20 @@ EXTERNAL_RAISES = {
 
 
 class CallGraph:
+    def __new__(cls, repo):
+        # one call graph per loaded repository (it is a pure function of the parsed tree; rules only read it)
+        got = getattr(repo, "_callgraph", None)
+        if got is not None:
+            return got
+        self = super().__new__(cls)
+        self._built = False
+        repo._callgraph = self
+        return self
+
     def __init__(self, repo):
+        if self._built:
+            return
+        self._built = True
         self.repo = repo
         self.field_types = {}      # (class qual, attr) -> class qual   from `self.attr = Class(...)`
         self._collect_field_types()
